@@ -136,6 +136,25 @@ def observe_positions(proto, texts):
     return evs
 
 
+def observe_comments(proto):
+    from bitproto._ast import Proto, Scope
+    evs = []
+    for p in P.all_protos(proto):
+        f = P.file_key(p.filepath)
+
+        def walk(scope, path):
+            for name, m in scope.members.items():
+                if isinstance(m, Proto):
+                    continue
+                cb = getattr(m, "comment_block", None)
+                if cb is not None:
+                    evs.append({"ev": "Comments", "file": f, "path": path + [name], "n": len(cb)})
+                if isinstance(m, Scope):
+                    walk(m, path + [name])
+        walk(p, [])
+    return evs
+
+
 def observe_lint(proto):
     """Runs the real linter in-process and collects the warning objects it reports."""
     common.use_repo()
@@ -192,6 +211,7 @@ def main(tier, replay=None):
             tr = P.spec_program(pr)
             tr["id"] = "c20-%d-%d" % (seed, k)
             tr["obs"] = obs
+            tr["_comments"] = observe_comments(proto) if proto is not None else []
             traces.append(tr)
             progs.append(pr)
             # command line: check-only exit status; output with and without -q
@@ -210,6 +230,25 @@ def main(tier, replay=None):
             traces[ti]["obs"].append({"ev": "LintNoEffect", "exit_lint": rc1, "exit_quiet": rc2,
                                       "same_outputs": digest_dir(o1) == digest_dir(o2)})
         verdicts, r = comptrace.validate(traces)
+        # beyond the listed properties (informational): comment attachment, decided by TextPos!CommentsAbove
+        xtraces = []
+        for tr, pr in zip(traces, progs):
+            evs = [e for e in tr["obs"] if e["ev"] == "Outcome"] + tr.get("_comments", [])
+            if len(evs) > 1:
+                x = dict(tr)
+                x["obs"] = evs
+                x.pop("_comments", None)
+                xtraces.append(x)
+        for tr in traces:
+            tr.pop("_comments", None)
+        if xtraces:
+            xv, xr = comptrace.validate(xtraces)
+            rep.add_tlc(xr, "beyond listed properties: comment attachment (informational)")
+            rep.cov["beyond_listed_properties"] = {
+                "what": "a definition owns exactly the comment lines immediately above it (TextPos!CommentsAbove vs the "
+                        "AST's comment_block); informational, never a verdict",
+                "definitions_compared": sum(len(x["obs"]) - 1 for x in xtraces),
+                "programs_not_explained": [v["why"] for v in xv if not v["ok"] and not v["why"].split(":", 1)[-1].startswith("skip")][:5]}
     rep.add_tlc(r, "trace-validation:Compiler + TextPos + lint expectations")
     rep.cov["traces_validated_against_impl"] = len(traces)
     for tr, pr, v in zip(traces, progs, verdicts):
